@@ -142,6 +142,22 @@ func (propC09) Gen(seed uint64, tier string, idx int) *Plan {
 		op.Body.Chunked = r.Chance(300)
 		p.Ops = append(p.Ops, op)
 	}
+	if r.Chance(400) {
+		// requests for different models in flight at the same moment, with scheduling points between the
+		// statements of the request-path code: whatever a routing decision hands back belongs to that request
+		n := len(p.Ops)
+		for i := 0; i < n; i++ {
+			twin := p.Ops[i]
+			twin.ID = len(p.Ops) + 1
+			twin.At += r.Dur(0, 3*time.Millisecond)
+			twin.Body.Model = pickS(r, spell(pickS(r, c09Models)))
+			p.Ops = append(p.Ops, twin)
+		}
+		p.Yields = map[string]int64{"pool.put": int64(2 * time.Millisecond)}
+		p.StmtYieldPermille = pickS(r, []int{100, 400, 1000})
+		p.StmtYieldMaxNs = int64(pickS(r, []time.Duration{200 * time.Microsecond, 2 * time.Millisecond}))
+		p.Sub += "/overlapping"
+	}
 	p.Deadline = 90 * time.Second
 	p.Settle = 100 * time.Millisecond
 	p.Extra = map[string]any{"t0_ms": 1000}
@@ -231,6 +247,15 @@ func (propC09) Check(r *Run) []Violation {
 				ambiguous = true
 			}
 		}
+		// ... and so do status writes while the request is under way: with overlapping requests another
+		// request's failure can take the only candidate out of rotation between this request's arrival and
+		// its routing decision; what "healthy at request time" means is then not decidable from outside
+		changedDuring := false
+		for _, w := range r.Stack.Rec.Repo {
+			if w.At >= c.StartAt && w.At <= c.DoneAt && w.Status != w.Prev {
+				changedDuring = true
+			}
+		}
 		names := func(m map[string]bool) string {
 			var s []string
 			for k := range m {
@@ -253,7 +278,7 @@ func (propC09) Check(r *Run) []Violation {
 		if ambiguous {
 			continue
 		}
-		faulted := false
+		faulted := changedDuring // (see above: the healthy set moved under the request)
 		for _, e := range exs {
 			if e.FaultFired != "" {
 				faulted = true // an attempt was killed by the simulator: "must be served" is not owed any more
@@ -278,10 +303,10 @@ func (propC09) Check(r *Run) []Violation {
 		switch {
 		case exactHealthy:
 			// must be served by a healthy endpoint that lists it
-			if (len(exs) == 0 || c.Status < 200 || c.Status >= 300) && !faulted {
+			if (len(exs) == 0 || c.Status < 200 || c.Status >= 300) && !faulted && !changedDuring {
 				add("C09/listed-healthy-model-not-served"+caseNote, "%s", ctx)
 			}
-			if dec != "" && dec != "routed" {
+			if dec != "" && dec != "routed" && !changedDuring {
 				add("C09/decision-header-disagrees"+caseNote, "%s; header says %q but a healthy endpoint lists the model", ctx, dec)
 			}
 		case !anyGenerous:
